@@ -130,6 +130,10 @@ theorem attemptAddition_spec (r : Nat) (s : State) (hfx : FixedOK s.atoms) :
   obtain ⟨hh, hc, ha⟩ := hsp
   unfold attemptAddition
   simp only []
+  by_cases hemp : (toAddOf (s.obj r) s.ctx).isEmpty = true
+  · simp only [hemp, if_true]
+    refine ⟨?_, ?_, Or.inl ⟨?_, ?_⟩⟩ <;> first | trivial | rfl | simp [State.setObj]
+  simp only [hemp, Bool.false_eq_true, if_false]
   cases hok : (attemptDisplacement { s.obj r with toAdd := some (toAddOf (s.obj r) s.ctx) } (addStart r s)).1 with
   | true =>
     simp only [if_true]
